@@ -28,6 +28,7 @@ COQ = os.path.join(VERIF, "coq")
 CACHE = os.path.join(VERIF, ".cache")
 PY = "/venv/bin/python"
 NPROC = min(16, os.cpu_count() or 4)
+PER_FILE_TIMEOUT = 900          # seconds of coqc per .v file in the make build
 
 FORBIDDEN = re.compile(
     r"\b(Admitted|admit|Axiom|Axioms|Parameter|Parameters|Conjecture|Hypothesis|Hypotheses|"
@@ -208,7 +209,8 @@ def coq_make(targets=None, timeout=3000):
             if rc != 0:
                 return False, out
         tg = " ".join(targets) if targets else ""
-        rc, out = sh("timeout %d make -f Makefile.coq -j%d -k %s" % (timeout, NPROC, tg), cwd=COQ, timeout=timeout + 30)
+        # every single file under its own timeout: a proof that stops terminating must not stall the build
+        rc, out = sh("timeout %d make -f Makefile.coq -j%d -k COQC='timeout %d coqc' %s" % (timeout, NPROC, PER_FILE_TIMEOUT, tg), cwd=COQ, timeout=timeout + 30)
         return rc == 0, out
 
 
